@@ -157,6 +157,11 @@ def judge(part, ops, res):
         part.inconclusive.append("harness returned %d results for %d ops" % (len(out), len(ops)))
         return
     model = objtree.ObjTree()
+    # The recorded deviation (UnknownMethod where the property asks for UnknownObject) is tied to one state: the root
+    # node's "invoke as fallback" flag is set - which it is from creation until somebody registers "/" as a plain object
+    # (and again after "/" was registered as a fallback).  In the other state the library does produce UnknownObject, so
+    # the wrong name there is a different failure and gets its own key.
+    root_flag = {"fallback": True}
 
     def viol(key, what, i, expected, observed):
         part.violation("%s:%s" % (PROP, key), what,
@@ -188,6 +193,10 @@ def judge(part, ops, res):
                 part.count("register-occupied")
             else:
                 part.count("register-ok")
+                if p == ():
+                    root_flag["fallback"] = (kind == "F")
+                if kind == "F":
+                    root_flag.setdefault("ever", set()).add(p)
         elif kind == "U":
             r = model.unregister(path)
             part.sig("unreg", r.fallback, model.has_descendant(path), bool(model.ancestor_fallbacks(path)), p == (), not model.reg)
@@ -237,7 +246,16 @@ def judge(part, ops, res):
                     viol("reply:no-error-when-declined", "nobody took the call to %s but the caller received %s" % (path, o), i, d.error, o)
                 elif o.get("err") != d.error:
                     if d.error == objtree.UNKNOWN_OBJECT and o.get("err") == objtree.UNKNOWN_METHOD:
-                        key = DEVIATION_UNKNOWN_OBJECT
+                        ever = root_flag.get("ever", set())
+                        if root_flag["fallback"]:
+                            key = DEVIATION_UNKNOWN_OBJECT
+                        elif p == ():
+                            key = DEVIATION_UNKNOWN_OBJECT + ":the-root-node-itself"
+                        elif any(p[:n] in ever for n in range(1, len(p) + 1)):
+                            key = DEVIATION_UNKNOWN_OBJECT + ":below-a-former-fallback"
+                        else:
+                            key = DEVIATION_UNKNOWN_OBJECT + ":root-last-registered-as-plain-object"
+                        part.count("unknown-object-expected:" + key.rsplit(":", 1)[-1])
                     elif d.error == objtree.UNKNOWN_METHOD and o.get("err") == objtree.UNKNOWN_OBJECT:
                         key = "error-name:unknown-method-reported-as-unknown-object:" + d.why
                     else:
